@@ -173,6 +173,18 @@ def rule_index_sketches(ctx: Ctx) -> None:
     agg = [s for s in walk_stmts(es.node.body) if isinstance(s, ast.Assign) and path_of(s.targets[0]) == "min_count" and isinstance(s.value, ast.Call) and path_of(s.value.func) in ("min", "max", "sum")]
     ok = len(agg) == 1 and unparse(agg[0].value).replace(" ", "") == "min(min_count,self._counters[row][col])" and len(stmts_matching(es, "min_count = float('inf')")) == 1
     ctx.ob("C20-2", "G3", es, agg[0] if agg else None, ok, "CountMinSketch.estimate is the minimum over the rows (every row over-counts, so the minimum never under-estimates)")
+    # rows are independent lists: the table is only ever (re)built by a comprehension that creates a fresh row each time
+    nb = 0
+    for m in cm.methods.values():
+        for st in walk_stmts(m.node.body):
+            if isinstance(st, (ast.Assign, ast.AnnAssign)):
+                t = st.targets[0] if isinstance(st, ast.Assign) else st.target
+                if path_of(t) == "self._counters":
+                    nb += 1
+                    v = st.value
+                    ok = isinstance(v, ast.ListComp) and isinstance(v.elt, (ast.BinOp, ast.List, ast.ListComp, ast.Call)) and not (isinstance(v.elt, ast.Name))
+                    ctx.ob("C20-2", "G9", m, st, ok, f"CountMinSketch.{m.name} builds the counter table with one fresh row per depth (an outer `[row] * depth` would make every row the same list and each add count depth times)")
+    need(nb >= 1, "C20-2: no construction of CountMinSketch._counters found")
     a = cm.methods["add"]
     w = [s for s in walk_stmts(a.node.body) if isinstance(s, ast.AugAssign) and unparse(s.target).replace(" ", "") == "self._counters[row][col]"]
     lp = [s for s in a.node.body if isinstance(s, ast.For)]
@@ -258,6 +270,20 @@ def rule_topk_tdigest(ctx: Ctx) -> None:
     r = [unparse(s.value).replace(" ", "") for s in walk_stmts(gt.node.body) if isinstance(s, ast.Return)]
     ctx.ob("C20-5", "G3", gt, "threshold N // k", r[-1:] == ["self._total_count//self._k"], "the guaranteed-tracking threshold is N // k")
 
+    mg = tk.methods["merge"]
+    # every write of a counter's error / count in merge adds the other sketch's contribution (errors add up: each side may over-count independently)
+    bad = []
+    n_w = 0
+    for st in walk_stmts(mg.node.body):
+        if isinstance(st, (ast.Assign, ast.AugAssign)):
+            t = st.targets[0] if isinstance(st, ast.Assign) else st.target
+            if isinstance(t, ast.Attribute) and t.attr in ("error", "count"):
+                n_w += 1
+                if not (isinstance(st, ast.AugAssign) and isinstance(st.op, ast.Add) and unparse(st.value) == f"counter.{t.attr}"):
+                    bad.append(norm_stmt(st))
+    errs = [st for st in walk_stmts(mg.node.body) if isinstance(st, ast.AugAssign) and isinstance(st.target, ast.Attribute) and st.target.attr == "error"]
+    ctx.ob("C20-5", "G9", mg, errs[0] if errs else None, not bad and len(errs) == 2 and n_w >= 3, "TopK.merge adds the other sketch's count and error bound for every item (tracked before or added by the merge): the reported error stays an upper bound"
+           + ("" if not bad else " — " + bad[0]))
     td = prog.cls(TD, "TDigest")
     a = td.methods["add"]
     af = ctx.flow(a)
@@ -355,6 +381,20 @@ def rule_reservoir_merkle(ctx: Ctx) -> None:
     ok = len(stmts_matching(bt, "mid = len(sorted_items) // 2")) == 1 and len(stmts_matching(bt, "left = _build_tree(sorted_items[:mid])")) == 1 and len(stmts_matching(bt, "right = _build_tree(sorted_items[mid:])")) == 1 \
         and "hash=_hash_children(left.hash, right.hash)" in unparse(bt.node) and "KeyRange(start=left.key_range.start, end=right.key_range.end)" in unparse(bt.node)
     ctx.ob("C20-8", "G2", bt, "split covers all items", ok, "_build_tree splits the sorted items into [:mid] and [mid:] (nothing dropped), hashes both halves in order and spans their ranges")
+    up = mt.methods["update"]
+    uf = ctx.flow(up)
+    bad = []
+    for p in enumerate_paths(uf, uf.cfg.entry):
+        if p.end != "exit":
+            continue
+        wrote = any(n.kind == "stmt" and isinstance(n.ast, ast.Assign) and unparse(n.ast.targets[0]).replace(" ", "") == "self._data[key]" and path_of(n.ast.value) == "value" for n in p.nodes)
+        if not wrote:
+            known = p.decided(lambda t: t == "keyinself._data")
+            same = p.decided(lambda t: t in ("self._data[key]==value", "value==self._data[key]"))
+            if not (known is True and same is True):
+                bad.append(p.describe()[:140] or "<unconditional>")
+    ctx.ob("C20-8", "G2", up, "every update reaches the map", not bad, "MerkleTree.update records the value on every path (a skip is sound only for a key that is present with an equal value — `.get(key) == value` also matches an absent key updated to None)"
+           + ("" if not bad else " — " + bad[0]))
     for q in ("update", "remove", "build"):
         fn = mt.methods[q]
         ff = ctx.flow(fn)
@@ -378,11 +418,14 @@ def run(ctx: Ctx) -> None:
     ctx.guarded(rule_index_sketches)
     ctx.guarded(rule_topk_tdigest)
     ctx.guarded(rule_reservoir_merkle)
-    for r, k in (("C20-1", 4), ("C20-2", 9), ("C20-3", 14), ("C20-4", 3), ("C20-5", 4), ("C20-6", 5), ("C20-7", 4), ("C20-8", 9)):
+    for r, k in (("C20-1", 4), ("C20-2", 10), ("C20-3", 14), ("C20-4", 3), ("C20-5", 5), ("C20-6", 5), ("C20-7", 4), ("C20-8", 10)):
         ctx.floor(r, k)
 
 
 MUTANTS = [
+    ("topk-merge-error-max", TOPK, "                self._counters[counter.item].error += counter.error\n            else:", "                self._counters[counter.item].error = max(self._counters[counter.item].error, counter.error)\n            else:", "C20-5"),
+    ("cms-clear-aliases-rows", CMS, "        for row in range(self._depth):\n            for col in range(self._width):\n                self._counters[row][col] = 0\n        self._total_count = 0", "        self._counters = [[0] * self._width] * self._depth\n        self._total_count = 0", "C20-2"),
+    ("merkle-update-skips-equal-get", MK, "        self._data[key] = value\n        if self._data:", "        if self._data.get(key) == value:\n            return\n        self._data[key] = value\n        if self._data:", "C20-8"),
     ("bloom-contains-fewer-hashes", BF, "        for i in range(self._num_hashes):\n            bit_idx = self._hash(item, i)\n            if not self._get_bit(bit_idx):", "        for i in range(self._num_hashes + 1):\n            bit_idx = self._hash(item, i)\n            if not self._get_bit(bit_idx):", "C20-1"),
     ("bloom-get-bit-other-word-size", BF, "        word_idx = bit_idx // 64\n        bit_pos = bit_idx % 64\n        return bool(", "        word_idx = bit_idx // 32\n        bit_pos = bit_idx % 64\n        return bool(", "C20-1"),
     ("bloom-hash-builtin", BF, "        h.update(repr(item).encode(\"utf-8\"))\n        digest = h.digest()", "        h.update(str(hash(item)).encode(\"utf-8\"))\n        digest = h.digest()", "C20-4"),
@@ -420,6 +463,7 @@ MUTANTS = [
     ("merkle-diff-empty-vs-nonempty", MK, "        if self._root is None:\n            return [other._root.key_range]", "        if self._root is None:\n            return []", "C20-8"),
 ]
 REFACTORS = [
+    ("merkle-update-skips-present-equal", MK, "        self._data[key] = value\n        if self._data:", "        if key in self._data and self._data[key] == value:\n            return\n        self._data[key] = value\n        if self._data:"),
     ("bloom-merge-guard-combined", BF, ["        if other._size_bits != self._size_bits:\n            raise ValueError(\n                f\"Cannot merge: size_bits differs ({self._size_bits} vs {other._size_bits})\"\n            )\n        if other._num_hashes != self._num_hashes:\n            raise ValueError(\n                f\"Cannot merge: num_hashes differs ({self._num_hashes} vs {other._num_hashes})\"\n            )\n"],
      ["        if other._size_bits != self._size_bits or self._num_hashes != other._num_hashes:\n            raise ValueError(\"Cannot merge: configuration differs\")\n"]),
     ("hll-merge-loop-var-renamed", HLL, "        for i in range(self._num_registers):\n            self._registers[i] = max(self._registers[i], other._registers[i])", "        for i in range(self._num_registers):\n            self._registers[i] = max(self._registers[i], other._registers[i])\n        pass"),
